@@ -175,7 +175,8 @@ extern MPT_STRUCT(buffer) *_mpt_buffer_map(size_t len, int flags)
 	
 	/* get page table size & check range */
 	if (!_mpt_buffer_map_psize
-	    || (_mpt_buffer_map_psize = sysconf(_SC_PAGESIZE)) < 1) {
+	    && (_mpt_buffer_map_psize = sysconf(_SC_PAGESIZE)) < 1) {
+		_mpt_buffer_map_psize = 0;
 		return 0;
 	}
 	if ((SIZE_MAX - sizeof(*b) - _mpt_buffer_map_psize) < len) {
